@@ -32,7 +32,7 @@ if __name__ == "__main__":
             ctx.soft_fail(str(e))
         BASE[p] = st._viol_keys(ctx)
     jobs = [(p, s) for p in props for s in seeds]
-    with mp.get_context("fork").Pool(16) as pool:
+    with mp.get_context("fork").Pool(16, maxtasksperchild=25) as pool:
         res = pool.map(one, jobs, chunksize=1)
     out = {}
     for p, s, status, msg in res:
